@@ -200,7 +200,8 @@ def gen_history(rng, fam):
                   'plan': []}
             if rng.random() < 0.25:
                 op['extras'] = [[rng.randrange(ntask), rng.choice(
-                    ('scalar', 'text', 'area', 'outdir-none', 'list'))]
+                    ('scalar', 'text', 'area', 'outdir-none', 'list',
+                     'outdir-nul'))]
                     for _ in range(rng.choice((1, 1, 2)))]
             if faulty and rng.random() < 0.6:
                 kind = rng.choice(('crash', 'crash', 'eio', 'open-fail'))
@@ -356,6 +357,11 @@ def _run_history(scn, sim, res, root):
                                  'area': {'by': {'somebody': 1}},
                                  'outdir-none': {'status': status_enum.DONE,
                                                  'output_dir': None},
+                                 # a directory name that open() refuses with
+                                 # ValueError, not OSError
+                                 'outdir-nul': {'status': status_enum.DONE,
+                                                'output_dir': os.path.join(
+                                                    root, 'nul\0byte')},
                                  'list': [1, 2]}[what]
             for i, tsk in enumerate(tasks):
                 add_extras(i)
